@@ -268,9 +268,9 @@ def r07_5(ctx):
     ctx.ob("R07.5", "positive-control:casts-seen", len(casts) >= 3, pn.loc() if pn else "", f"{len(casts)} integer casts seen in parse_number (detector works)", nontrivial=False)
 
 
-def r07_6(ctx):
+def r07_6(ctx, config="native"):
     """x86 simd_str2int multiplier words = the decimal weights 10, 100, 10^4 (and 10^8 in the scalar tail)"""
-    prog = ctx.prog()
+    prog = ctx.prog(config)
     fn = prog.fns.get("sonic_number::arch::simd_str2int")
     if fn is None:
         cands = [f for f in prog.fns.values() if f.name == "simd_str2int"]
